@@ -87,9 +87,11 @@ def _converted_roles(repo) -> Set[str]:
     if id(repo) not in _ROLES_CACHE:
         f = repo.method('Outputs', '_convert_units', 'geophires_x/Outputs.py')
         roles: Set[str] = set()
+        from gxstat.inline import inline_sequential
         for lp in ast.walk(f.node):
-            if isinstance(lp, ast.For) and isinstance(lp.iter, (ast.List, ast.Tuple)) and any('OutputParameterDict' in norm(x) for x in ast.walk(lp)):
-                for e in lp.iter.elts:
+            it = inline_sequential(lp.iter, lp, cross_loops=True) if isinstance(lp, ast.For) and isinstance(lp.iter, ast.Name) else getattr(lp, 'iter', None)
+            if isinstance(lp, ast.For) and isinstance(it, (ast.List, ast.Tuple)) and any('OutputParameterDict' in norm(x) for x in ast.walk(lp)):
+                for e in it.elts:
                     d = dotted_name(e)
                     if d and d.startswith('model.'):
                         roles.add(d.split('.')[1])
